@@ -102,7 +102,22 @@ def build(race=False, quiet=False):
     return out
 
 
+def build_cli(quiet=False):
+    """the repository's own `j5` command (no harness code, no tag): C09 drives `j5 j5s fmt --write` with it"""
+    repo = repo_dir()
+    bdir = os.path.join(BUILD, _tag(repo))
+    os.makedirs(bdir, exist_ok=True)
+    out = os.path.join(bdir, "j5")
+    p = subprocess.run(["go", "build", "-o", out, "./cmd/j5"], cwd=repo, env=go_env(), stdout=subprocess.PIPE, stderr=subprocess.STDOUT, text=True)
+    if p.returncode != 0:
+        sys.stdout.write(p.stdout)
+        print("BUILD-FAILED: cmd/j5 does not build in %s (exit %d)" % (repo, p.returncode))
+        sys.exit(3)
+    return out
+
+
 if __name__ == "__main__":
     print(build(race=False))
+    print(build_cli())
     if "--race" in sys.argv:
         print(build(race=True))
